@@ -505,6 +505,20 @@ func runPubfan(t *testing.T, sched simrt.Schedule, prog pfProg) ([]Violation, Ru
 		if prog.Suspend >= 0 && sc.Root >= 0 {
 			rc := w.clientsOf(sc.Root)[0]
 			w.runPhase(map[int][]*Op{rc.Idx: {opMsg(&ClientComMessage{Acc: &MsgClientAcc{User: fmt.Sprintf("@usr%d", prog.Suspend), State: "susp"}})}})
+			// every loaded topic the suspended user owns or is a p2p participant of is suspended (read-only) now
+			if ls := rc.Sents[len(rc.Sents)-1]; ls.Code >= 200 && ls.Code < 300 {
+				su := w.Users[prog.Suspend].Uid
+				sn := w.snapshot()
+				for name, ts := range sn.Topics {
+					_, member := ts.PerUser[su]
+					if (ts.Cat == types.TopicCatP2P && member) || (ts.Cat == types.TopicCatGrp && ts.Owner == su) {
+						simrt.Probe("c03.suspended_topic_checked")
+						if ts.Status&topicStatusReadOnly == 0 {
+							out = append(out, vio("C03", "suspended-topic-writable", "user %d was suspended but the loaded topic %s (cat %d) is not read-only", prog.Suspend, name, ts.Cat))
+						}
+					}
+				}
+			}
 		} else {
 			w.settle()
 		}
